@@ -1370,7 +1370,7 @@ def _run(rep, rng, tier, seed, build, mutant, kinds, maxlen, scratch):
     plan, stats = {}, []
     for kind in kinds:
         g = graphs[kind]
-        budget = (len(g.edges) + 30) if quick else 800       # the edge cover is never cut; trajectories are sampled
+        budget = (len(g.edges) + 10) if quick else 800       # the edge cover is never cut; trajectories are sampled
         paths, st = choose_paths(g, maxlen, budget, rng)
         variants = 0 if quick else 2
         extra = []
@@ -1388,6 +1388,9 @@ def _run(rep, rng, tier, seed, build, mutant, kinds, maxlen, scratch):
         walks = random_walks(g, maxlen, 6 if quick else 200, rng)
         # every quantity asked directly after every other call on a fresh object (all ordered pairs)
         pairs = [[a, b] for a in g.methods for b in g.methods]
+        if quick and kind not in ("Plate", "PlateRedef"):       # quick tier: all pairs on two kinds, a sample elsewhere
+            rng.shuffle(pairs)
+            pairs = pairs[:60 if kind == "Assembly" else 25]
         seen = set(map(tuple, paths))
         for p in pairs + extra + walks:
             if tuple(p) not in seen:
@@ -1409,7 +1412,7 @@ def _run(rep, rng, tier, seed, build, mutant, kinds, maxlen, scratch):
         res, refvals, pr = replay_kind(kind, graphs[kind], plan[kind], build, scratch, share, mutant=mutant)
         # twin pass: the same behaviour right after the same behaviour on a twin object (another material) in the
         # same process; every single call, and every k-th longer path (none that kills the interpreter)
-        k_th = 5 if quick else 3
+        k_th = 10 if quick else 3
         pick = [p for i, (p, steps) in enumerate(res)
                 if (len(p) == 1 or i % k_th == 0) and not any(s["etype"] == "crash" for s in steps)]
         if pick and not pr:
@@ -1499,14 +1502,15 @@ def _run(rep, rng, tier, seed, build, mutant, kinds, maxlen, scratch):
     rep.cov["rule"] = ("one replay per (abstract state, method) pair explored by TLC (edge cover of the dumped graph), "
                        "per distinct trajectory of abstract states (%s; counts under coverage.graph) and seeded "
                        "random call sequences; every call is made twice; distinct = distinct (kind, call sequence)"
-                       % ("up to 30 per kind, 1 labelling" if quick else "up to 800 per kind, 3 labellings"))
+                       % ("up to 10 per kind, 1 labelling" if quick else "up to 800 per kind, 3 labellings")
+                       + "; ordered pairs of calls on a fresh object (quick: all on Plate/PlateRedef, sampled elsewhere)")
     rep.cov["exhaustive"] = False
     rep.assumptions += [
         "re-definitions between calls are explored on one kind (PlateRedef: constant pre-load; ply thickness + material); "
         "the reference of a call is then the same call on a fresh object re-defined the same way first",
         "process-global state: every single call and every %s-th longer path is also replayed right after the same path on "
         "a twin object of another material in the same process and must give the same outcome, result and derived "
-        "values" % ("5" if quick else "3"),
+        "values" % ("10" if quick else "3"),
         "methods a model does not support at all (kpanel: kA, cA, strain, non-linear kernels) are not part of Methods(kind)",
         "'freshly defined object' reference of a call that cannot be first today = the same call after the shortest "
         "call sequence the specification says makes it succeed",
